@@ -32,6 +32,8 @@ type variant struct {
 	srvExplicit bool // server lists its suites explicitly
 	shared      bool // the two servers start with the same ticket key
 	capacity    int
+	auth        gmtls.ClientAuthType // initial ClientAuth of both servers
+	ops         []int                // reduced operation alphabet (nil = all)
 }
 
 func keyBytes(id int) (k [32]byte) {
@@ -205,7 +207,8 @@ func newWorld(v variant) (*world, *model) {
 	w := &world{v: v}
 	m := &model{v: v, nextKey: 2}
 	for i := 0; i < 2; i++ {
-		cfg := &gmtls.Config{Time: tlsk.FixedTime, Rand: wire.NewRand(byte(10 + i)), ClientCAs: p.Roots}
+		cfg := &gmtls.Config{Time: tlsk.FixedTime, Rand: wire.NewRand(byte(10 + i)), ClientCAs: p.Roots, ClientAuth: v.auth}
+		m.srv[i].auth = v.auth
 		if v.gm {
 			cfg.GMSupport = &gmtls.GMSupport{}
 			cfg.Certificates = []gmtls.Certificate{p.Sign, p.Enc}
@@ -331,7 +334,11 @@ func histUnit(v variant, first, depth int) harness.Unit {
 			for step := 0; step < depth; step++ {
 				op := first
 				if step > 0 {
-					op = x.Pick(nOps, "op")
+					if v.ops != nil {
+						op = v.ops[x.Pick(len(v.ops), "op")]
+					} else {
+						op = x.Pick(nOps, "op")
+					}
 				}
 				hist = append(hist, opName(op))
 				c.Add("transitions", 1)
@@ -625,12 +632,22 @@ func ticketFaultUnit(v variant) harness.Unit {
 }
 
 var variants = []variant{
-	{"GMSSL/explicit-suites/shared-key/cap2", true, true, true, 2},
-	{"GMSSL/explicit-suites/separate-keys/cap1", true, true, false, 1},
-	{"GMSSL/default-suites/shared-key/cap2", true, false, true, 2},
-	{"TLS1.2/shared-key/cap2", false, false, true, 2},
-	{"TLS1.2/separate-keys/cap1", false, false, false, 1},
-	{"GMSSL/explicit-suites/shared-key/cap3", true, true, true, 3},
+	{"GMSSL/explicit-suites/shared-key/cap2", true, true, true, 2, 0, nil},
+	{"GMSSL/explicit-suites/separate-keys/cap1", true, true, false, 1, 0, nil},
+	{"GMSSL/default-suites/shared-key/cap2", true, false, true, 2, 0, nil},
+	{"TLS1.2/shared-key/cap2", false, false, true, 2, 0, nil},
+	{"TLS1.2/separate-keys/cap1", false, false, false, 1, 0, nil},
+	{"GMSSL/explicit-suites/shared-key/cap3", true, true, true, 3, 0, nil},
+}
+
+// focused variants: a reduced alphabet (connections and key rotations only) explored deeper, with
+// servers that request / require client certificates from the start
+var rotationOps = []int{0, 2, 4, 5, 6}
+var focused = []variant{
+	{"GMSSL/rotation-focus/ClientAuth=Request", true, true, true, 2, gmtls.RequestClientCert, rotationOps},
+	{"GMSSL/rotation-focus/ClientAuth=VerifyIfGiven", true, true, true, 2, gmtls.VerifyClientCertIfGiven, rotationOps},
+	{"TLS1.2/rotation-focus/ClientAuth=Request", false, false, true, 2, gmtls.RequestClientCert, rotationOps},
+	{"TLS1.2/rotation-focus/ClientAuth=RequireAny", false, false, false, 1, gmtls.RequireAnyClientCert, rotationOps},
 }
 
 // Prop registers C16.
@@ -641,9 +658,9 @@ var Prop = &harness.Prop{
 	Assumptions: []string{"the client always holds a certificate; servers only request/require it per policy", "resumption is observed through DidResume on both ends and, for raw replays, through the shape of the server's first flight"},
 	Bounds: func(tier string) string {
 		if tier == "thorough" {
-			return "depth 4 for six variants; ticket faults for five variants"
+			return "depth 4 for six variants over 13 operations, depth 6 for four rotation-focused variants over 5 operations; ticket faults for five variants"
 		}
-		return "depth 3 for six variants; ticket faults for three variants"
+		return "depth 3 for six variants over 13 operations, depth 4 for four rotation-focused variants over 5 operations (connect S0/S1, rotate keep/drop) with servers requesting client certificates; ticket faults for three variants"
 	},
 	Units: func(tier string) []harness.Unit {
 		var u []harness.Unit
@@ -657,6 +674,15 @@ var Prop = &harness.Prop{
 					continue
 				}
 				u = append(u, histUnit(v, f, depth))
+			}
+		}
+		fdepth := 4
+		if tier == "thorough" {
+			fdepth = 6
+		}
+		for _, v := range focused {
+			for _, f := range v.ops {
+				u = append(u, histUnit(v, f, fdepth))
 			}
 		}
 		nv := 3
